@@ -520,4 +520,134 @@ theorem slot_spec {V : Variant} {s : Store} (hi : Inv V s) {c : Cache} (hc : s.c
       exact ⟨h.symm, by rw [h', ← h]⟩
   · simp at hs
 
+
+
+theorem lazyLoad_eq {s : Store} {h : Int} {view : Store} (hv : s.lazyLoad h = some view) :
+    ∃ d, savedAt s.saved h = some d ∧ view = { s with version := h, working := d } := by
+  unfold Store.lazyLoad at hv
+  rw [Option.map_eq_some_iff] at hv
+  obtain ⟨d, hd, rfl⟩ := hv
+  exact ⟨d, hd, rfl⟩
+
+theorem slot_some_served {c : Cache} {h : Int} {sl : Slot} (hs : c.slot h = some sl) : c.safe h = true := by
+  unfold Cache.slot at hs
+  split at hs
+  · assumption
+  · simp at hs
+
+/-- A point read of a lazily loaded version is the tree's, or the cache's on the same map. -/
+theorem view_get_cases {V : Variant} {s : Store} (hi : Inv V s) {h : Int} {view : Store}
+    (hv : s.lazyLoad h = some view) (k : Bytes) :
+    view.get V k = view.working.get k ∨ (view.served = true ∧ view.get V k = V.get view.working k) := by
+  obtain ⟨d, hd, rfl⟩ := lazyLoad_eq hv
+  cases hc : s.cache with
+  | none => left; simp [Store.get, hc]
+  | some c =>
+    cases hs : c.slot h with
+    | none => left; simp [Store.get, hc, Cache.get, hs]
+    | some sl =>
+      right
+      obtain ⟨h1, _⟩ := slot_spec hi hc hd hs
+      refine ⟨by simp [Store.served, hc, slot_some_served hs], ?_⟩
+      simp [Store.get, hc, Cache.get, hs, h1]
+
+/-- A range read of a lazily loaded version is the tree's, or the cache iterator's on the same map
+with the `orderedKeys` that `Commit` stored for it. -/
+theorem view_iter_cases {V : Variant} {s : Store} (hi : Inv V s) {h : Int} {view : Store}
+    (hv : s.lazyLoad h = some view) (st e : Option Bytes) (asc : Bool) :
+    view.iter V st e asc = treeIter view.working st e asc ∨
+    (view.served = true ∧ view.iter V st e asc = V.iter view.working (V.ordered view.working) st e asc) := by
+  obtain ⟨d, hd, rfl⟩ := lazyLoad_eq hv
+  cases hc : s.cache with
+  | none => left; simp [Store.iter, hc]
+  | some c =>
+    cases hs : c.slot h with
+    | none => left; simp [Store.iter, hc, Cache.iter, hs]
+    | some sl =>
+      right
+      obtain ⟨h1, h2⟩ := slot_spec hi hc hd hs
+      refine ⟨by simp [Store.served, hc, slot_some_served hs], ?_⟩
+      simp [Store.iter, hc, Cache.iter, hs, h1, h2]
+
+theorem view_sorted {V : Variant} {s : Store} (hi : Inv V s) {h : Int} {view : Store}
+    (hv : s.lazyLoad h = some view) : Sorted view.working := by
+  obtain ⟨d, hd, rfl⟩ := lazyLoad_eq hv
+  exact hi.saved_sorted _ (savedAt_mem hd)
+
+@[simp] theorem readNoCache_get (s : Store) (k : Bytes) : s.readNoCache (.get k) = .val (s.working.get k) := by
+  simp [Store.readNoCache, Store.read, Store.get]
+@[simp] theorem readNoCache_getW (s : Store) (k : Bytes) : s.readNoCache (.getW k) = .val (s.working.get k) := by
+  simp [Store.readNoCache, Store.read, Store.get]
+@[simp] theorem readNoCache_has (s : Store) (k : Bytes) : s.readNoCache (.has k) = .bool (s.working.get k).isSome := by
+  simp [Store.readNoCache, Store.read]
+@[simp] theorem readNoCache_hasW (s : Store) (k : Bytes) : s.readNoCache (.hasW k) = .bool (s.working.get k).isSome := by
+  simp [Store.readNoCache, Store.read, Store.get]
+@[simp] theorem readNoCache_iter (s : Store) (st e : Option Bytes) (asc : Bool) :
+    s.readNoCache (.iter st e asc) = .items (treeIter s.working st e asc) := by
+  simp [Store.readNoCache, Store.read, Store.iter]
+@[simp] theorem readNoCache_iterW (s : Store) (st e : Option Bytes) (asc : Bool) :
+    s.readNoCache (.iterW st e asc) = .items (treeIter s.working st e asc) := by
+  simp [Store.readNoCache, Store.read, Store.iter]
+
+/-- Full transparency for any variant whose `Get` is the map lookup and whose iterator over the
+stored `orderedKeys` is the tree's range scan. -/
+theorem transparent_of_variant {V : Variant} (hget : ∀ d k, V.get d k = d.get k)
+    (hiter : ∀ d, Sorted d → ∀ st e asc, V.iter d (V.ordered d) st e asc = treeIter d st e asc)
+    {s : Store} (hi : Inv V s) {h : Int} {view : Store} (hv : s.lazyLoad h = some view) (r : Read) :
+    view.read V r = view.readNoCache r := by
+  have hg : ∀ k, view.get V k = view.working.get k := by
+    intro k; rcases view_get_cases hi hv k with h | ⟨_, h⟩
+    · exact h
+    · rw [h, hget]
+  have hit : ∀ st e asc, view.iter V st e asc = treeIter view.working st e asc := by
+    intro st e asc; rcases view_iter_cases hi hv st e asc with h | ⟨_, h⟩
+    · exact h
+    · rw [h, hiter _ (view_sorted hi hv)]
+  cases r <;> simp [Store.read, hg, hit]
+
+/-- The working store (height = the cache's current height) is never served from the cache. -/
+theorem working_not_served {V : Variant} {s : Store} (hi : Inv V s) : s.served = false := by
+  unfold Store.served
+  cases hc : s.cache with
+  | none => rfl
+  | some c =>
+    obtain ⟨_, h2, _⟩ := hi.cache c hc
+    simp [Cache.safe, h2]
+
+theorem working_read {V : Variant} {s : Store} (hi : Inv V s) (r : Read) : s.read V r = s.readNoCache r := by
+  have hs : ∀ c, s.cache = some c → c.slot s.version = none := by
+    intro c hc
+    obtain ⟨_, h2, _⟩ := hi.cache c hc
+    simp [Cache.slot, Cache.safe, h2]
+  have hg : ∀ k, s.get V k = s.working.get k := by
+    intro k
+    cases hc : s.cache with
+    | none => simp [Store.get, hc]
+    | some c => simp [Store.get, hc, Cache.get, hs c hc]
+  have hit : ∀ st e asc, s.iter V st e asc = treeIter s.working st e asc := by
+    intro st e asc
+    cases hc : s.cache with
+    | none => simp [Store.iter, hc]
+    | some c => simp [Store.iter, hc, Cache.iter, hs c hc]
+  cases r <;> simp [Store.read, hg, hit]
+
+/-- The tree part of the state does not depend on the cache: the cache-off twin has the same. -/
+theorem twin_tree (V : Variant) (ops : List Op) : ∀ (s t : Store),
+    s.version = t.version → s.working = t.working → s.saved = t.saved →
+    (s.run V ops).version = (t.run V ops).version ∧ (s.run V ops).working = (t.run V ops).working ∧
+    (s.run V ops).saved = (t.run V ops).saved := by
+  induction ops with
+  | nil => intro s t h1 h2 h3; exact ⟨h1, h2, h3⟩
+  | cons o r ih =>
+    intro s t h1 h2 h3
+    apply ih
+    all_goals cases o <;> simp [Store.step, h1, h2, h3]
+
+
+
+theorem run_cache_none (V : Variant) (ops : List Op) : ∀ s : Store, s.cache = none → (s.run V ops).cache = none := by
+  induction ops with
+  | nil => intro s h; exact h
+  | cons o r ih => intro s h; exact ih (s.step V o) (by cases o <;> simp [Store.step, h])
+
 end HeightCache
